@@ -40,12 +40,14 @@ Definition c17_model_ok (c : c17_case) : bool :=
   | _, _ => false
   end.
 
-(* V: the delivery claim (HandlerSys.spec_current: a message arriving on the connection that is
-   current goes to the handler registered by the latest Handle call) holds on the observed log *)
+(* V: the delivery claim holds on the observed log (HandlerSys.spec_every): a message arriving on
+   the connection that is current goes to the handler registered by the latest Handle call; a
+   message arriving on a connection that SetClient has replaced but that is still open goes to the
+   handler that connection was left with — it is never dropped because of the replacement *)
 Definition c17_prop_ok (c : c17_case) : bool :=
   let '(ls, o) := c in
   match obs_events o with
-  | Some evs' => meets (spec_current ls) evs'
+  | Some evs' => list_eqb event_eqb (spec_every ls) evs'
   | None => false
   end.
 
@@ -93,6 +95,10 @@ Example c17_check_selftest :
   c17_loop_model_ok ([uh 1; dl 0; sc 0; cb; cs 0; ca 0; ib 0 7; en 0; uh 0; dl 0; sc 1; cb; cs 1; ca 1; ib 1 8; uh 2; ib 1 9],
                      [oh 0 7 1; od 1 8; oh 1 9 2]) = true /\
   c17_prop_ok ([uh 1; dl 0; sc 0; cb; cs 0; ca 0; ib 0 7], [od 0 7]) = false /\
+  (* make-before-break: the late message of the replaced connection 0 belongs to h1, not to nobody and not to h2 *)
+  c17_prop_ok ([uh 1; dl 0; sc 0; cb; cs 0; ca 0; dl 0; sc 1; uh 2; ib 0 7; cb; cs 1; ca 1; ib 1 8; ib 0 9], [oh 0 7 1; oh 1 8 2; oh 0 9 1]) = true /\
+  c17_prop_ok ([uh 1; dl 0; sc 0; cb; cs 0; ca 0; dl 0; sc 1; uh 2; ib 0 7], [od 0 7]) = false /\
+  c17_prop_ok ([uh 1; dl 0; sc 0; cb; cs 0; ca 0; dl 0; sc 1; uh 2; ib 0 7], [oh 0 7 2]) = false /\
   c17_race_model_ok ([uh 1; dl 0; sc 0; cb; cs 0; ca 0], 2, [ib 0 7; ib 0 8], [ib 0 9], [oh 0 7 1; oh 0 8 2; oh 0 9 2]) = true /\
   c17_race_prop_ok ([uh 1; dl 0; sc 0; cb; cs 0; ca 0], 2, [ib 0 7; ib 0 8], [ib 0 9], [oh 0 7 2; oh 0 8 1; oh 0 9 2]) = false /\
   c17_loop_model_ok ([uh 1; dl 0; sc 0; cb; cs 0; ca 0; ih 0 7 2; ib 0 8; en 0; dl 0; sc 1; cb; cs 1; ca 1; ih 1 9 0; ib 1 10],
